@@ -23,8 +23,19 @@ def ind(txt, n=4):
     return "\n".join(" " * n + l for l in txt.strip("\n").split("\n"))
 
 
-def prog(body, ext="n"):
-    return HEAD.format(body=ind(body), ext=ext)
+def prog(body, ext="n", imported=False):
+    t = HEAD.format(body=ind(body), ext=ext)
+    if imported:
+        # a passive coefficient imported from a module PSyclone cannot see (unresolved type): array statements
+        # that use it are not converted to loops and reach the adjoint rules in array notation
+        t = t.replace("    integer, intent(in) :: n\n", "    use consts_mod, only: kk\n    integer, intent(in) :: n\n")
+    return t
+
+
+# array-notation statements: the same section spelt in different ways, full arrays, shifted sections
+SECTIONS = ["a(1:n-1) = p*a(:n-1) + KK*b(2:n)", "a(:n) = a(1:n) + KK*b(1:n)", "a(:) = a(:) + KK*b(:)",
+            "a = a + KK*b", "b(2:n) = KK*a(1:n-1)", "a(1:n) = KK*a(1:n)", "a(2:n) = a(2:n) - KK*c(2:n)*b(1:n-1)",
+            "b(:) = KK*a(:) + b", "a(1::2) = a(::2) + KK*b(1::2)", "a(:n-1) = KK*b(:n-1) - a(1:n-1)"]
 
 
 SYM_HEADERS = ["1, n", "n, 1, -1", "1, n, 2", "2, n", "2, n - 1", "n, 2, -2", "1, n - 1, 3", "n - 1, 1, -1"]
@@ -45,8 +56,9 @@ STRAIGHT = ["s = s + c(2)*a(1)", "s = c(3)*b(1)", "a(1) = a(1) + b(2)\nb(2) = a(
 def gen(tier, seed):
     cases = []
 
-    def add(tmpl, params, body, ext="n"):
-        cases.append({"template": tmpl, "params": params, "src": prog(body, ext), "routine": "kern",
+    def add(tmpl, params, body, ext="n", imported=False, assumed=False):
+        cases.append({"template": tmpl, "params": params, "src": prog(body, ext, imported), "routine": "kern",
+                      "imported": imported, "assumed": assumed,
                       "active": ["a", "b", "s"] + (["w"] if "w =" in body or "w " in body.split("=")[0] else []),
                       "ext": ext})
 
@@ -78,6 +90,12 @@ def gen(tier, seed):
         "if (c(1) > 0.0_r_def) then\n  s = s + c(2)*a(10)\nelse\n  s = c(3)*b(1)\nend if", ext="10")
     add("combo", {"v": 3}, "do i = 2, n\n  a(i) = a(i) + a(i-1)\nend do\ndo i = n - 1, 1, -1\n  a(i) = a(i) + c(i)*a(i+1)\nend do")
     add("combo", {"v": 4}, "s = 0.0_r_def\ndo i = 1, n\n  s = s + c(i)*a(i)\nend do\ndo i = 1, n\n  b(i) = b(i) + s\nend do")
+    for v, st in enumerate(SECTIONS):
+        add("sections", {"v": v, "imported": False}, st.replace("KK", "p"))
+        add("sections", {"v": v, "imported": True}, st.replace("KK", "kk"), imported=True)
+        # PSyAD sees assumed-shape dummies (it then cannot normalise `1:` / `:` spellings of a section)
+        add("sections", {"v": v, "imported": True, "assumed": True}, st.replace("KK", "kk"), imported=True, assumed=True)
+        add("sections", {"v": v, "imported": False, "assumed": True}, st.replace("KK", "p"), assumed=True)
     if tier == "quick":
         keep = []
         for c in cases:
